@@ -283,6 +283,58 @@ Definition diagnose (ms : list method) : list string :=
   fold_left (fun acc f => match fact_tag (infer_guards fs) (infer_ranks fs) f with
                           | Some t => add_new t acc | None => acc end) fs [].
 
+(* ------------------------------------------------------------------ one critical section per table and operation
+   "Every individual store operation takes effect atomically": a method that writes a table must make all of its
+   accesses to that table - its own and those of the methods it calls - while it holds the table's guard
+   continuously.  A method that reads the table in one critical section and writes it in a later one (test, release,
+   re-acquire, set) is race-free and deadlock-free and still not atomic: two callers can both pass the test.
+   [events] is the event sequence of the execution of a method that never returns early, every item once. *)
+Fixpoint events_stmts (callf : string -> list event) (ds : list string) (body : list stmt) : list event :=
+  match body with
+  | [] => releases ds
+  | SAcq m md :: rest => Acq m md :: events_stmts callf (m :: ds) rest
+  | SLock m md :: rest => Acq m md :: events_stmts callf ds rest
+  | SUnlock m :: rest => Rel m :: events_stmts callf ds rest
+  | SRet :: rest => events_stmts callf ds rest
+  | SItems its :: rest =>
+      (flat_map (fun it => match it with IAcc t a => [Acc t a] | ICall f => callf f end) its
+       ++ events_stmts callf ds rest)%list
+  end.
+
+Fixpoint events (fuel : nat) (ms : list method) (body : list stmt) : list event :=
+  match fuel with
+  | 0 => []
+  | S fuel' => events_stmts (fun g => match lookup_method g ms with Some gb => events fuel' ms gb | None => [] end) [] body
+  end.
+
+Definition writes_table (evs : list event) (t : string) : bool :=
+  existsb (fun e => match e with Acc t' MW => String.eqb t' t | _ => false end) evs.
+
+(* [opened]: tables accessed since their guard was last taken; [closed]: tables whose guard was released after an access *)
+Fixpoint split_scan (G : guards) (evs : list event) (opened closed : list string) : option string :=
+  match evs with
+  | [] => None
+  | Acc t _ :: r => if existsb (String.eqb t) closed then Some t else split_scan G r (add_new t opened) closed
+  | Rel m :: r =>
+      let hit := filter (fun t => match alookup t G with Some g => String.eqb g m | None => false end) opened in
+      split_scan G r (filter (fun t => negb (existsb (String.eqb t) hit)) opened) (hit ++ closed)%list
+  | Acq _ _ :: r => split_scan G r opened closed
+  end.
+
+(* only tables the method writes matter: two read sections are two atomic reads *)
+Definition split_section (ms : list method) (f : string) : option string :=
+  match lookup_method f ms with
+  | None => None
+  | Some fb =>
+      let evs := events (depth ms) ms fb in
+      let G := infer_guards (all_facts ms) in
+      let wr := filter (fun e => match e with Acc t _ => writes_table evs t | _ => true end) evs in
+      match split_scan G wr [] [] with
+      | Some t => Some ("split-critical-section:" ++ f ++ ":" ++ t)
+      | None => None
+      end
+  end.
+
 (* pairwise lockset criterion, independent of the inferred guards: two entry methods can race on
    a table when they access it (one writing) without a common mutex of which one holds it
    exclusively *)
